@@ -121,6 +121,10 @@ var c07Decors = []struct {
 	{"SELECT k1, k2, id, ROW_NUMBER() OVER (PARTITION BY k2 ORDER BY k1 DESC) AS r FROM t", [3]int{0, 1, 2}},
 	{"SELECT k1, k2, id FROM t GROUP BY k1, k2, id", [3]int{0, 1, 2}},
 	{"SELECT k2, k1, id, COUNT(*) OVER (PARTITION BY k1) AS n, SUM(id) OVER (ORDER BY k2 DESC, id) AS s FROM t", [3]int{1, 0, 2}},
+	// set operations whose (empty) other operand carries an OFFSET / LIMIT of its own
+	{"(SELECT k1, k2, id FROM t WHERE FALSE OFFSET 1) UNION ALL SELECT k1, k2, id FROM t", [3]int{0, 1, 2}},
+	{"SELECT k1, k2, id FROM t UNION ALL (SELECT k1, k2, id FROM t WHERE FALSE LIMIT 1 OFFSET 2)", [3]int{0, 1, 2}},
+	{"(SELECT k1, k2, id FROM t ORDER BY id DESC LIMIT 100 PERCENT OFFSET 0) EXCEPT SELECT k1, k2, id FROM t WHERE FALSE", [3]int{0, 1, 2}},
 }
 
 func c07Undecorate(q c07Query, out [][]rv.V) [][]rv.V {
@@ -819,7 +823,8 @@ func c07Run(c *core.Ctx) {
 				dq = append(dq, q)
 				dsql = append(dsql, q.SQL())
 			}
-			for _, lim := range []ordref.Limit{{Kind: ordref.LimRows, N: 2}, {Kind: ordref.LimRows, N: 1, Ties: true}, {Kind: ordref.LimRows, N: 2, HasOff: true, Off: 1}} {
+			for _, lim := range []ordref.Limit{{Kind: ordref.LimRows, N: 2}, {Kind: ordref.LimRows, N: 1, Ties: true}, {Kind: ordref.LimRows, N: 2, HasOff: true, Off: 1},
+				{Kind: ordref.LimPercent, Pct: "50"}, {Kind: ordref.LimPercent, Pct: "34", Ties: true}, {Kind: ordref.LimPercent, Pct: "50", HasOff: true, Off: 1}} {
 				for _, kl := range [][]ordref.Key{{{Col: 0}}, {{Col: 1, Dir: ordref.DirDesc}}, {{Col: 1}, {Col: 0, Dir: ordref.DirDesc}}} {
 					q := c07Query{Keys: kl, Lim: lim, Decor: d}
 					dq = append(dq, q)
